@@ -13,6 +13,8 @@ enum Fault {
     MissingPath,
     /// a path that does not exist and does not end in `.circom` is named instead of the target file
     MissingOther(usize),
+    /// a block comment opened at the end of the file and never closed (text `usize` of UNTERMINATED, no final newline)
+    Unterminated(usize),
     DanglingSymlink,
     InvalidUtf8,
     VersionTooNew(usize),
@@ -36,6 +38,7 @@ impl Fault {
         match self {
             Fault::MissingPath => "missing_path".into(),
             Fault::MissingOther(k) => format!("missing_path:{}", MISSING_NAMES[*k]),
+            Fault::Unterminated(k) => format!("unterminated_comment:{}", UNTERMINATED[*k].replace('\n', "\\n")),
             Fault::DanglingSymlink => "dangling_symlink".into(),
             Fault::InvalidUtf8 => "invalid_utf8".into(),
             Fault::VersionTooNew(k) => format!("version_too_new:{}", TOO_NEW[*k].join(".")),
@@ -54,7 +57,7 @@ impl Fault {
         match self {
             Fault::MissingPath | Fault::MissingOther(_) | Fault::DanglingSymlink | Fault::InvalidUtf8 => &["P1000"],
             Fault::VersionTooNew(_) | Fault::VersionTooOld(_) => &["P1003"],
-            Fault::Lexical(..) | Fault::Unmatched(..) | Fault::DroppedSemicolon(..) | Fault::SecondMainSameFile => &["P1000"],
+            Fault::Lexical(..) | Fault::Unmatched(..) | Fault::DroppedSemicolon(..) | Fault::SecondMainSameFile | Fault::Unterminated(_) => &["P1000"],
             Fault::Statement(_, _, ids) => ids,
             Fault::DuplicateParam(..) => &["CS0002"],
             Fault::DuplicateDefinition(..) => &["T2008"],
@@ -72,6 +75,9 @@ impl Fault {
 
 /// Names of paths that do not exist (none ends in `.circom`; the last lies in a directory that does not exist).
 const MISSING_NAMES: [&str; 5] = ["zzmissing", "zzmissing.txt", "zzmissing.circom.bak", "zzmissing.", "zznodir/zzfile"];
+
+/// Block comments that are never closed, at the very end of the file (no final newline).
+const UNTERMINATED: [&str; 6] = ["/*", "/**", "/* x *", "/* x\n *", "/*/", "/* x"];
 
 /// Versions outside the supported range 2.0.0 ..= 2.1.4 (each component above / below in turn).
 const TOO_NEW: [[&str; 3]; 7] = [["2", "1", "5"], ["2", "1", "40"], ["2", "2", "0"], ["2", "10", "0"], ["3", "0", "0"], ["3", "1", "2"], ["10", "0", "4"]];
@@ -154,6 +160,7 @@ fn apply(p: &GenProject, target: usize, fault: &Fault) -> Option<Vec<u8>> {
             out.push_str(&src[pos..]);
             Some(out.into_bytes())
         }
+        Fault::Unterminated(k) => Some(format!("{}\n{}", src.trim_end(), UNTERMINATED[*k]).into_bytes()),
         Fault::Lexical(k, c) | Fault::Unmatched(k, c) => {
             let at = toks.get(*k).map(|t| t.0).unwrap_or(src.len());
             let mut s = src[..at].to_string();
@@ -278,6 +285,7 @@ fn case_in(ctx: &Ctx, p: &GenProject, t: &mut Tape, rec: &Rec, dir: &Path) -> Ve
     let ntok = f.r.toks.len();
     let mut faults: Vec<Fault> = vec![Fault::MissingPath, Fault::DanglingSymlink, Fault::InvalidUtf8];
     faults.extend((0..MISSING_NAMES.len()).map(Fault::MissingOther));
+    faults.extend((0..UNTERMINATED.len()).map(Fault::Unterminated));
     faults.extend((0..TOO_NEW.len()).map(Fault::VersionTooNew));
     faults.extend((0..TOO_OLD.len()).map(Fault::VersionTooOld));
     let positions: Vec<usize> = if ntok <= 40 {
